@@ -2130,3 +2130,156 @@ fn not_found(lane_name: Option<&str>, response_tx: HttpResponseSender) {
         error!("HTTP connection was terminated before the response cound be sent.");
     }
 }
+
+#[cfg(swimos_verif)]
+pub mod verif_hooks {
+    //! Facade over the synchronous core of the write task (and the components it is built
+    //! from) for the verification harness. Nothing here alters control flow: every method
+    //! forwards to the private method the write task itself calls.
+    use super::*;
+    use futures::FutureExt;
+
+    pub use super::external_links::verif_hooks::*;
+    pub use super::links::{Links, TriggerUnlink};
+    pub use super::receiver::LaneData;
+    pub use super::remotes::{
+        LaneRegistry, RemoteSender, RemoteTracker, UplinkResponse, VerifUplinks as Uplinks,
+    };
+    pub use super::write_fut::{SpecialAction, WriteAction, WriteResult, WriteTask};
+    pub use crate::agent::DisconnectionReason;
+
+    /// What the write task does with the result of handling a coordination message.
+    #[derive(Debug, Default)]
+    pub struct Scheduled {
+        pub writes: Vec<WriteTask>,
+        pub prune: Vec<Uuid>,
+        pub stop: bool,
+    }
+
+    pub struct WriteTaskHarness {
+        state: WriteTaskState,
+        init: Initialization,
+    }
+
+    impl WriteTaskHarness {
+        pub fn new(identity: Uuid, node_uri: &str, aggregate_reporter: Option<UplinkReporter>) -> Self {
+            WriteTaskHarness {
+                state: WriteTaskState::new(identity, Text::new(node_uri), aggregate_reporter),
+                init: Initialization::new(None, Duration::from_secs(1)),
+            }
+        }
+
+        pub fn register_lane(&mut self, name: &str, reporter: Option<UplinkReporter>) -> u64 {
+            self.state.register_lane(Text::new(name), reporter)
+        }
+
+        fn message(&mut self, msg: WriteTaskMessage) -> Scheduled {
+            let WriteTaskHarness { state, init } = self;
+            let store = StoreDisabled;
+            let result = state
+                .handle_task_message(msg, init, &store)
+                .now_or_never()
+                .expect("Coordination messages do not suspend.");
+            let mut out = Scheduled::default();
+            match result {
+                TaskMessageResult::ScheduleWrite { write, schedule_prune } => {
+                    out.writes.push(write);
+                    out.prune.extend(schedule_prune);
+                }
+                TaskMessageResult::AddPruneTimeout(id) => out.prune.push(id),
+                TaskMessageResult::Stop => out.stop = true,
+                _ => {}
+            }
+            out
+        }
+
+        pub fn attach_remote(
+            &mut self,
+            id: Uuid,
+            writer: ByteWriter,
+            completion: promise::Sender<DisconnectionReason>,
+        ) -> Scheduled {
+            self.message(WriteTaskMessage::Remote {
+                id,
+                writer,
+                completion,
+                on_attached: None,
+            })
+        }
+
+        pub fn link(&mut self, origin: Uuid, lane: &str) -> Scheduled {
+            self.message(WriteTaskMessage::Coord(RwCoordinationMessage::Link {
+                origin,
+                lane: Text::new(lane),
+            }))
+        }
+
+        pub fn unlink(&mut self, origin: Uuid, lane: &str) -> Scheduled {
+            self.message(WriteTaskMessage::Coord(RwCoordinationMessage::Unlink {
+                origin,
+                lane: Text::new(lane),
+            }))
+        }
+
+        pub fn unknown_lane(&mut self, origin: Uuid, node: &str, lane: &str) -> Scheduled {
+            self.message(WriteTaskMessage::Coord(RwCoordinationMessage::UnknownLane {
+                origin,
+                path: RelativeAddress::new(Text::new(node), Text::new(lane)),
+            }))
+        }
+
+        pub fn lane_event(&mut self, lane_id: u64, target: Option<Uuid>, response: UplinkResponse) -> Vec<WriteTask> {
+            self.state
+                .handle_event(lane_id, LaneData::new(target, response))
+                .collect()
+        }
+
+        pub fn write_done(&mut self, result: WriteResult) -> Option<WriteTask> {
+            match result {
+                (writer, buffer, Ok(_)) => self.state.replace(writer, buffer),
+                (writer, _, Err(_)) => {
+                    let remote_id = writer.remote_id();
+                    self.state
+                        .remove_remote(remote_id, DisconnectionReason::ChannelClosed);
+                    None
+                }
+            }
+        }
+
+        pub fn lane_failed(&mut self, lane_id: u64) -> Scheduled {
+            let mut out = Scheduled::default();
+            for (unlink, maybe_write) in self.state.remove_lane(lane_id) {
+                out.writes.extend(maybe_write);
+                let TriggerUnlink { remote_id, schedule_prune } = unlink;
+                if schedule_prune {
+                    out.prune.push(remote_id);
+                }
+            }
+            out
+        }
+
+        pub fn prune_remote(&mut self, remote_id: Uuid) {
+            self.state.remove_remote_if_idle(remote_id);
+        }
+
+        pub fn has_remotes(&self) -> bool {
+            self.state.has_remotes()
+        }
+
+        pub fn has_remote(&self, remote_id: Uuid) -> bool {
+            self.state.remote_tracker.has_remote(remote_id)
+        }
+
+        pub fn is_linked(&self, remote_id: Uuid, lane_id: u64) -> bool {
+            self.state.links.is_linked(remote_id, lane_id)
+        }
+
+        pub fn unlink_all(&mut self) -> Vec<WriteTask> {
+            self.state.unlink_all().collect()
+        }
+
+        pub fn dispose_of_remotes(self, reason: DisconnectionReason) {
+            self.state.dispose_of_remotes(reason)
+        }
+    }
+}
